@@ -638,7 +638,7 @@ def gen_cases(rng, tier):
     cases = [{"kind": "file", "path": p} for p in shipped_files()]
     if tier == "quick":
         n_v2src, n_v2ast, n_v1src, n_v1items, depth = 900, 5000, 1500, 5000, 4
-        n_v2rt, n_v1rt, n_v1yaml = 500, 120, 1500
+        n_v2rt, n_v1rt, n_v1yaml = 500, 120, 1200
     else:
         n_v2src, n_v2ast, n_v1src, n_v1items, depth = 5000, 45000, 10000, 60000, 6
         n_v2rt, n_v1rt, n_v1yaml = 4000, 800, 15000
